@@ -9,7 +9,7 @@ from vlib import entsnap as S
 
 ID = "C12"
 PROPERTIES_V = "theories/Properties/C12.v"
-CASE_IMPORTS = "From GV Require Import Prelude.Base Model.CopyModel."
+CASE_IMPORTS = "From GV Require Import Prelude.Base Model.CopyModel.\nOpen Scope Z_scope."
 ALLOWED_AXIOMS: list = []
 REFUTED = ["C12_no_alias_refuted (copy and source share the metadata dict object: copy.metadata = {...} updates the source's dict in place)"]
 PARTIAL = ["C12_no_alias_partial (edits of the copy leave every pre-existing entity unchanged when the edited node carries no metadata or the edit is not a metadata assignment)",
@@ -47,13 +47,15 @@ SURVEYS = set(S.CURVE_LIKE[2:] + ["MTReceivers", "TipperBaseStations"])
 GEO = {}
 for _c in S.POINTS_LIKE:
     GEO[_c] = "GPoints"
-for _c in S.CURVE_LIKE + S.SURFACE_LIKE:
+for _c in S.SURFACE_LIKE:
     GEO[_c] = "GCells"
+for _c in S.CURVE_LIKE:
+    GEO[_c] = "GCurve"
 for _c in S.GRID_LIKE:
     GEO[_c] = "GGrid"
 for _c in S.OTHER_OBJ:
     GEO[_c] = "GPlain"
-GEO["TipperBaseStations"] = "GCells"
+GEO["TipperBaseStations"] = "GCurve"
 MODEL_GROUPS = set(S.PLAIN_GROUPS + S.OPTION_GROUPS + ["CustomGroup", "RootGroup"])
 MODEL_OBJECTS = (set(S.ALL_OBJECTS) - SURVEYS - {"Drillhole"}) | {"Drillhole"}
 
@@ -194,7 +196,7 @@ def generate(rng, tier):
             src = obj_spec(rng, cls)
             finish_pgs(rng, src)
             target = rng.weighted([("same", 35), ("group", 25), ("ws", 25), ("wsgroup", 15)])
-            if rng.chance(45) and GEO.get(cls) in ("GPoints", "GCells"):
+            if rng.chance(45) and GEO.get(cls) in ("GPoints", "GCells", "GCurve"):
                 nn = src["n"]
                 opts["mask"] = [1 if rng.chance(65) else 0 for _ in range(nn if not rng.chance(8) else nn - 1)]
             elif rng.chance(45) and cls == "Grid2D":
@@ -581,8 +583,31 @@ def _expressible_node(node):
     return all(_expressible_node(c) for c in node.get("children", []))
 
 
+class _Intern:
+    """per-case table: 40-bit tokens -> small integers (only equality of tokens matters inside one case)."""
+
+    def __init__(self):
+        self.t = {}
+
+    def __call__(self, x):
+        if x not in self.t:
+            self.t[x] = 1000 + len(self.t)
+        return self.t[x]
+
+
+IN = [_Intern()]
+
+
+def zt(x):
+    return str(IN[0](x))
+
+
+def zv(x):
+    return "(%d)" % x if x < 0 else str(x)
+
+
 def _zz(pairs):
-    return clist("(%s, %s)" % (cz(a), cz(b)) for a, b in pairs)
+    return clist("(%s,%s)" % (zt(a), zt(b)) for a, b in pairs)
 
 
 def _vals_list(v):
@@ -595,11 +620,14 @@ def _vals_list(v):
             out.append(None)
         elif isinstance(x, bool):
             out.append(int(x))
-        elif isinstance(x, int):
+        elif isinstance(x, int) and abs(x) < 1000:
             out.append(x)
         else:
-            out.append(tok(x))
+            out.append(IN[0](tok(x)))
     return out
+
+
+SKIP_TYPE = [False]  # a name= override also renames a newly created entity type (finding): types left out of such cases
 
 
 def _payload_parts(node):
@@ -611,30 +639,38 @@ def _payload_parts(node):
     for k in sorted(a):
         if k == "metadata":
             continue
-        if k in ("vertices", "cells") and geo in ("GPoints", "GCells") and (k == "vertices" or geo == "GCells"):
+        if k in ("vertices", "cells") and geo in ("GPoints", "GCells", "GCurve") and (k == "vertices" or geo != "GPoints"):
             continue
         if k == "values" and isinstance(a[k], list):
             continue
         attrs.append((tok(k), tok(a[k])))
-    attrs.append((tok("__type__"), tok(node.get("type"))))
-    verts = [tok(r) for r in (a.get("vertices") or [])] if geo in ("GPoints", "GCells") else []
-    cells = [[int(x) for x in c] for c in (a.get("cells") or [])] if geo == "GCells" else []
-    ncell = node.get("nc") or 0 if geo == "GGrid" else 0
+    if not SKIP_TYPE[0]:
+        attrs.append((tok("__type__"), tok(node.get("type"))))
+    verts = [tok(r) for r in (a.get("vertices") or [])] if geo in ("GPoints", "GCells", "GCurve") else []
+    cells = [[int(x) for x in c] for c in (a.get("cells") or [])] if geo in ("GCells", "GCurve") else []
+    ncell = (node.get("nc") or 0) if geo == "GGrid" else 0
     vals = _vals_list(a.get("values")) if knd == "KData" else None
     asc = {"VERTEX": "AVertex", "CELL": "ACell"}.get((a.get("association") or {}).get("enum") if isinstance(a.get("association"), dict) else None, "AObject")
     md = a.get("metadata")
     mdl = None
     if isinstance(md, dict) and "dict" in md:
-        mdl = sorted((tok(k), tok(v)) for k, v in md["dict"])
-    return dict(cls=tok(cls), knd=knd, geo=geo, asc=asc, attrs=attrs, verts=verts, cells=cells, ncell=ncell, vals=vals, meta=mdl)
+        mdl = sorted(((tok(k), tok(v)) for k, v in md["dict"]), key=lambda kv: IN[0](kv[0]))
+    return dict(cls=tok(cls), knd=knd, geo=geo, asc=asc, attrs=attrs, verts=verts, cells=cells, ncell=ncell, vals=vals, meta=mdl,
+                nocopy=cls == "CustomGroup")
+
+
+def _vals_term(vals):
+    return "None" if vals is None else "(Some %s)" % clist("None" if v is None else "(Some %s)" % zv(v) for v in vals)
+
+
+def _cells_term(cells):
+    return clist(clist(cnat(x) for x in c) for c in cells)
 
 
 def _payload_term(pp, meta_loc):
-    return ("{| cls := %s; knd := %s; geok := %s; asc := %s; attrs := %s; verts := %s; cells := %s; ncell := %s; vals := %s; meta := %s |}"
-            % (cz(pp["cls"]), pp["knd"], pp["geo"], pp["asc"], _zz(pp["attrs"]), clist(cz(v) for v in pp["verts"]),
-               clist(clist(cnat(x) for x in c) for c in pp["cells"]), cnat(pp["ncell"]),
-               "None" if pp["vals"] is None else "(Some %s)" % clist(copt(v, cz) for v in pp["vals"]),
-               "None" if meta_loc is None else "(Some %d%%N)" % meta_loc))
+    return "(mkp %s %s %s %s %s %s %s %s %s %s %s)" % (
+        zt(pp["cls"]), pp["knd"], pp["geo"], pp["asc"], _zz(pp["attrs"]), clist(zt(v) for v in pp["verts"]), _cells_term(pp["cells"]),
+        cnat(pp["ncell"]), _vals_term(pp["vals"]), "None" if meta_loc is None else "(Some %d%%N)" % meta_loc, cbool(pp.get("nocopy", False)))
 
 
 def _ord(u):
@@ -654,14 +690,16 @@ class _Heap:
         return self.ids[meta_id]
 
 
+def _pg_tok(p):
+    return tok([p["name"], p["association"], p["pgtype"]])
+
+
 def _tree_term(node, heap):
     pp = _payload_parts(node)
     loc = heap.loc(node["meta_id"], pp["meta"]) if pp["meta"] is not None else None
-    pgs = clist("{| pg_uid := %d%%N; pg_tok := %s; pg_props := %s |}" % (_ord(p["uid"]), cz(tok([p["name"], p["association"], p["pgtype"]])),
-                                                                       clist("%d%%N" % _ord(u) for u in (p["props"] or [])))
+    pgs = clist("(mkg %d%%N %s %s)" % (_ord(p["uid"]), zt(_pg_tok(p)), clist("%d%%N" % _ord(u) for u in (p["props"] or [])))
                 for p in node.get("pgs") or [])
-    return "(T {| nuid := %d%%N; pl := %s; npgs := %s |} %s)" % (_ord(node["uid"]), _payload_term(pp, loc), pgs,
-                                                                clist(_tree_term(c, heap) for c in node.get("children", [])))
+    return "(T (mkn %d%%N %s %s) %s)" % (_ord(node["uid"]), _payload_term(pp, loc), pgs, clist(_tree_term(c, heap) for c in node.get("children", [])))
 
 
 def _cuid(u, n_old):
@@ -676,20 +714,14 @@ def _ctree_term(node, n_old):
         prefs = []
         for u in p["props"] or []:
             prefs.append("(PChild %s)" % cnat(kids.index(u)) if u in kids else "(PUid %s)" % _cuid(u, n_old))
-        pgs.append("(%s, %s, %s)" % (cz(tok([p["name"], p["association"], p["pgtype"]])), _cuid(p["uid"], n_old), clist(prefs)))
+        pgs.append("(%s,%s,%s)" % (zt(_pg_tok(p)), _cuid(p["uid"], n_old), clist(prefs)))
     return "(C %s %s %s %s %s %s %s %s %s)" % (
-        cz(pp["cls"]), _cuid(node["uid"], n_old), _zz(pp["attrs"]), clist(cz(v) for v in pp["verts"]),
-        clist(clist(cnat(x) for x in c) for c in pp["cells"]),
-        "None" if pp["vals"] is None else "(Some %s)" % clist(copt(v, cz) for v in pp["vals"]),
-        "None" if pp["meta"] is None else "(Some %s)" % _zz(pp["meta"]), clist(pgs), clist(_ctree_term(c, n_old) for c in node.get("children", [])))
+        zt(pp["cls"]), _cuid(node["uid"], n_old), _zz(pp["attrs"]), clist(zt(v) for v in pp["verts"]), _cells_term(pp["cells"]),
+        _vals_term(pp["vals"]), "None" if pp["meta"] is None else "(Some %s)" % _zz(pp["meta"]), clist(pgs),
+        clist(_ctree_term(c, n_old) for c in node.get("children", [])))
 
 
-ERRMAP = {"ValueError": "EMaskShape", "RecursionError": "ERecursion", "KeyError": "EKeyError", "TypeError": "ETypeError"}
-
-
-def _group_node(uid_ord, name, kids_terms):
-    return ("(T {| nuid := %d%%N; pl := {| cls := %s; knd := KGroup; geok := GPlain; asc := AObject; attrs := []; verts := []; cells := []; ncell := 0%%nat; vals := None; meta := None |}; npgs := [] |} %s)"
-            % (uid_ord, cz(tok(name)), clist(kids_terms)))
+ERRMAP = {"NotCopied": "ENotCopied", "ValueError": "EMaskShape", "RecursionError": "ERecursion", "KeyError": "EKeyError", "TypeError": "ETypeError"}
 
 
 def case_term(case, obs):
@@ -701,8 +733,13 @@ def case_term(case, obs):
 def _case_term_general(case, obs):
     if not (_expressible_node(obs["wsA"]) and _expressible_node(obs["wsB"])):
         return None
+    if "getter-raised" in json.dumps([obs.get(k) for k in ("wsA", "wsB", "copy", "src_after", "src_edited", "copy_edited")]):
+        return None  # a getter raised (zero-length values, finding): the observation has no value to compare
+    IN[0] = _Intern()
     n_old = obs["n_old"]
     heap = _Heap(100000)
+    o = case["opts"]
+    SKIP_TYPE[0] = o["name"] is not None
     wa = _tree_term(obs["wsA"], heap)
     wb = _tree_term(obs["wsB"], heap)
     target = case["target"]
@@ -710,22 +747,22 @@ def _case_term_general(case, obs):
     tws = "true" if target in ("ws", "wsgroup", "wsobject") else "false"
     u = _ord(obs["src_reloaded"]["uid"])
     p = _ord(obs["parent_before"]["uid"])
-    o = case["opts"]
     over = []
     if o["name"] is not None:
         over.append((tok("name"), tok(o["name"])))
-    opts = "{| o_children := %s; o_mask := %s; o_omit_meta := %s; o_over := %s |}" % (
+    opts = "(Build_opts %s %s %s %s %s)" % (
         cbool(o["copy_children"] if "pick" not in case["src"] else True),
         "None" if o["mask"] is None else "(Some %s)" % clist(cbool(bool(b)) for b in o["mask"]),
-        cbool(o["omit_meta"]), _zz(over))
-    world = "{| wsA := %s; wsB := %s; heap := %s; wnext := %d%%N |}" % (
-        wa, wb, clist("(%d%%N, %s)" % (l, _zz(d)) for l, d in heap.cells), 200000)
-    dummy = "(C 0%Z CNew [] [] [] None None [] [])"
+        cbool(o["omit_meta"]), _zz(over), cbool(o["clear_cache"]))
+    world = "(Build_world %s %s %s 200000%%N)" % (wa, wb, clist("(%d%%N,%s)" % (l, _zz(d)) for l, d in heap.cells))
+    dummy = "(C 0 CNew [] [] [] None None [] [])"
+    if obs["error"] is None and "copy" not in obs:
+        obs = dict(obs, error="NotCopied")
     if obs["error"] is not None:
         e = ERRMAP.get(obs["error"])
         if e is None:
             return "false"
-        return "check_case %s %s %d%%N %s %d%%N %s [] (Some %s) %s %s %s %s 0%%nat" % (world, sws, u, tws, p, opts, e, dummy, dummy, dummy, dummy)
+        return "check_case %s %s %d%%N %s %d%%N %s [] (Some %s) %s None None None 0%%nat" % (world, sws, u, tws, p, opts, e, dummy)
     edits = []
     for ed, lg in zip(case.get("edits", []), obs.get("edit_log", [])):
         if lg != "ok":
@@ -734,20 +771,28 @@ def _case_term_general(case, obs):
             return None
         path = clist(cnat(i) for i in ed["path"])
         if ed["op"] == "meta":
-            edits.append("(%s, SetMeta %s)" % (path, _zz(sorted((tok(k), tok(v)) for k, v in ed["val"].items()))))
+            edits.append("(%s, SetMeta %s)" % (path, _zz(sorted(((tok(k), tok(v)) for k, v in ed["val"].items()), key=lambda kv: IN[0](kv[0])))))
         elif ed["op"] == "attr":
-            edits.append("(%s, SetAttr %s %s)" % (path, cz(tok(ed["attr"])), cz(tok(ed["val"]))))
+            edits.append("(%s, SetAttr %s %s)" % (path, zt(tok(ed["attr"])), zt(tok(ed["val"]))))
         elif ed["op"] == "vals":
             node = obs["copy_edited"]
             for i in ed["path"]:
                 node = node["children"][i]
             n = len(node["attrs"]["values"])
-            edits.append("(%s, SetVals %s)" % (path, clist("(Some %s)" % cz((ed["seed"] + 3 * i) % 17) for i in range(n))))
+            edits.append("(%s, SetVals %s)" % (path, clist("(Some %d)" % ((ed["seed"] + 3 * i) % 17) for i in range(n))))
     if any(_has_unmodelled(n) for n in (obs["copy"], obs["copy_edited"])):
         return None
+    t_src0 = _ctree_term(obs["src_reloaded"], n_old)
+    t_copy = _ctree_term(obs["copy"], n_old)
+    t_after = _ctree_term(obs["src_after"], n_old)
+    t_edited = _ctree_term(obs["src_edited"], n_old)
+    t_cedited = _ctree_term(obs["copy_edited"], n_old)
+
+    def opt(t, same_as):
+        return "None" if t == same_as else "(Some %s)" % t
     return "check_case %s %s %d%%N %s %d%%N %s %s None %s %s %s %s %s" % (
-        world, sws, u, tws, p, opts, clist(edits), _ctree_term(obs["copy"], n_old), _ctree_term(obs["src_after"], n_old),
-        _ctree_term(obs["src_edited"], n_old), _ctree_term(obs["copy_edited"], n_old), cnat(len(obs["parent_after"]["child_uids"])))
+        world, sws, u, tws, p, opts, clist(edits), t_copy, opt(t_after, t_src0), opt(t_edited, t_after), opt(t_cedited, t_copy),
+        cnat(len(obs["parent_after"]["child_uids"])))
 
 
 def _has_unmodelled(node):
@@ -814,12 +859,6 @@ def _uid_map(src, cp, m):
     return m
 
 
-def _expected_masked(node, mask, geo_parent=None):
-    """the source restricted by the mask, from the property text: kept vertices, cells whose vertices are all kept (same coordinates),
-    data at kept positions. Returns a dict of expectations for the root object only."""
-    return None
-
-
 def _cmp_nodes(src, cp, mapping, case, path, fails, masked, top):
     """attribute-by-attribute comparison of one source node with its copy (recursive)."""
     if src["cls"] != cp["cls"]:
@@ -844,11 +883,19 @@ def _cmp_nodes(src, cp, mapping, case, path, fails, masked, top):
             continue  # linked surveys: C20
         d = _first_diff(sv, cv)
         if d:
-            fails.append({"key": "copy-attribute-differs:" + k, "what": f"{path} ({src['cls']}): {k}{d}: source {str(sv)[:80]} copy {str(cv)[:80]}"})
+            key = "copy-attribute-differs:" + k
+            if k == "depths" and isinstance(cv, dict) and cv == sa[k]:
+                key = "drillhole-copy-depths-is-source-data"
+            if k == "values" and "getter-raised" in json.dumps(cv):
+                key = "empty-values-unreadable"
+            fails.append({"key": key, "what": f"{path} ({src['cls']}): {k}{d}: source {str(sv)[:80]} copy {str(cv)[:80]}"})
     st, ct = _strip_uids(src.get("type"), mapping), cp.get("type")
     d = _first_diff(st, ct)
     if d:
-        fails.append({"key": "copy-type-differs", "what": f"{path}: entity type {d}"})
+        key = "copy-type-differs"
+        if top and o["name"] is not None and d == "/name" and (ct or {}).get("name") == o["name"]:
+            key = "copy-name-override-renames-type"
+        fails.append({"key": key, "what": f"{path}: entity type {d}: source {str((st or {}).get(d[1:]))[:40]} copy {str((ct or {}).get(d[1:]))[:40]}"})
 
 
 def _mask_expect(src, cp, mask, fails, path):
@@ -856,12 +903,12 @@ def _mask_expect(src, cp, mask, fails, path):
     cls = src["cls"]
     geo = GEO.get(cls, "GPlain")
     sv, cv = src["attrs"].get("vertices"), cp["attrs"].get("vertices")
-    if geo in ("GPoints", "GCells") and isinstance(sv, list):
+    if geo in ("GPoints", "GCells", "GCurve") and isinstance(sv, list):
         keep = [bool(b) for b in mask]
         exp_v = [r for r, k in zip(sv, keep) if k]
         if _norm(cv or []) != _norm(exp_v):
             fails.append({"key": "masked-vertices", "what": f"{path}: kept vertices differ"})
-        if geo == "GCells":
+        if geo in ("GCells", "GCurve"):
             sc, cc = src["attrs"].get("cells") or [], cp["attrs"].get("cells") or []
             exp_cells = [[sv[i] for i in c] for c in sc if all(keep[i] for i in c)]
             try:
@@ -881,7 +928,9 @@ def _mask_expect(src, cp, mask, fails, path):
                 if km is None or len(km) != len(av):
                     continue
                 exp = [x for x, k in zip(av, km) if k]
-                if _norm(bv) != _norm(exp):
+                if "getter-raised" in json.dumps(bv):
+                    fails.append({"key": "empty-values-unreadable", "what": f"{path}/{a['attrs'].get('name')}: values of the masked copy cannot be read ({bv}); {len(exp)} values expected"})
+                elif _norm(bv) != _norm(exp):
                     fails.append({"key": "masked-values", "what": f"{path}/{a['attrs'].get('name')}: values of the masked copy are not the kept values"})
             elif _first_diff(av, bv):
                 fails.append({"key": "masked-values", "what": f"{path}/{a['attrs'].get('name')}: object-association values changed by the mask"})
@@ -901,7 +950,21 @@ def _mask_expect(src, cp, mask, fails, path):
 
 
 def _walk_cmp(src, cp, mapping, case, path, fails, mask, top=True):
-    masked = mask is not None and _kind_of(src["cls"]) == "KObject" and GEO.get(src["cls"]) in ("GPoints", "GCells", "GGrid")
+    if top and mask is not None and _kind_of(src["cls"]) == "KData":
+        # Data.copy(mask=...): "array of bool defining the values to keep" - the others are dropped or become no-data
+        _cmp_nodes(src, cp, mapping, case, path, fails, True, top)
+        av, bv = src["attrs"].get("values"), cp["attrs"].get("values")
+        if isinstance(av, list) and len(av) == len(mask):
+            comp = [x for x, k in zip(av, mask) if k]
+            blank = [x if k else None for x, k in zip(av, mask)]
+            nd = {"IntegerData": -2147483648, "ReferencedData": 0, "BooleanData": 0}.get(src["cls"])
+            blank2 = [x if k else nd for x, k in zip(av, mask)]
+            if "getter-raised" in json.dumps(bv):
+                fails.append({"key": "empty-values-unreadable", "what": f"values of the masked data copy cannot be read ({bv})"})
+            elif _norm(bv) not in (_norm(comp), _norm(blank), _norm(blank2)):
+                fails.append({"key": "masked-values", "what": f"masked data copy holds {bv}, source {av}, mask {mask}"})
+        return
+    masked = mask is not None and _kind_of(src["cls"]) == "KObject" and GEO.get(src["cls"]) in ("GPoints", "GCells", "GCurve", "GGrid")
     _cmp_nodes(src, cp, mapping, case, path, fails, masked, top)
     if masked:
         _mask_expect(src, cp, mask, fails, path)
@@ -954,6 +1017,10 @@ def _only_metadata_differs(a, b):
     return out
 
 
+def _has_curve(n):
+    return GEO.get(n["cls"]) == "GCurve" or any(_has_curve(c) for c in n.get("children", []))
+
+
 def _drop_ids(n):
     m = {k: v for k, v in n.items() if k not in ("meta_id", "children")}
     m["children"] = [_drop_ids(c) for c in n.get("children", [])]
@@ -989,12 +1056,16 @@ def oracle(case, obs):
         if not expected:
             fails.append({"key": "copy-refused:" + obs["error"], "what": f"copy of {obs['src_cls']} to {target} raised {obs['error']}: {obs.get('msg')}"})
     # source and bystanders untouched by the copy itself
+    curve_clear = case["opts"]["clear_cache"] and _has_curve(obs["src_reloaded"])
     if obs.get("src_after") is not None and _first_diff(src0, _drop_ids(obs["src_after"])):
-        fails.append({"key": "source-changed-by-copy", "what": "source subtree differs after copy at " + str(_first_diff(src0, _drop_ids(obs["src_after"])))})
+        dd = _only_metadata_differs(src0, _drop_ids(obs["src_after"]))
+        key = "curve-clear-cache-regenerates-source-cells" if dd == {"cells"} and curve_clear else "source-changed-by-copy:" + ",".join(sorted(dd))
+        fails.append({"key": key, "what": "source subtree differs after copy at " + str(_first_diff(src0, _drop_ids(obs["src_after"])))})
     if _first_diff(_drop_ids(obs["by_before"]), _drop_ids(obs["by_after"])):
         fails.append({"key": "bystander-changed-by-copy", "what": "an unrelated entity changed during the copy"})
     if obs["error"] is None and "copy" not in obs:
-        fails.append({"key": "copy-returned-none", "what": f"copy of {obs['src_cls']} to {target} returned None"})
+        key = "custom-group-copy-returns-none" if obs["src_cls"] == "CustomGroup" else "copy-returned-none"
+        fails.append({"key": key, "what": f"copy of {obs['src_cls']} to {target} returned None: nothing was copied"})
     elif obs["error"] is None:
         cp = obs["copy"]
         mapping = _uid_map(obs["src_reloaded"], cp, {})
@@ -1008,7 +1079,7 @@ def oracle(case, obs):
             if not (target == "same" and False):
                 fails.append({"key": "target-parent-children", "what": "the target parent did not gain exactly the copy as a new last child"})
         # later edits of the copy do not show through in the source
-        d = _only_metadata_differs(src0 | {"children": src0["children"]}, _drop_ids(obs["src_edited"]))
+        d = _only_metadata_differs(_drop_ids(obs["src_after"]), _drop_ids(obs["src_edited"]))
         if d:
             if d == {"metadata"} and obs.get("meta_shared_paths"):
                 fails.append({"key": "copy-shares-metadata-dict", "what": "copy.metadata = {...} changed the source's metadata: the copy holds the same dict object as its source (paths %s)" % obs["meta_shared_paths"][:3]})
@@ -1022,13 +1093,17 @@ def oracle(case, obs):
         if any(str(x).startswith("raised") for x in obs.get("edit_log", [])):
             bad = [x for x in obs["edit_log"] if str(x).startswith("raised")]
             fails.append({"key": "copy-edit-refused", "what": f"a setter of the copy raised: {bad[:3]}"})
-        if obs.get("copy_reopened_cls") != cp["cls"]:
+        renamed = any(e["op"] == "attr" and e["attr"] == "name" and e["path"] == [] for e in case.get("edits", []))
+        if obs.get("copy_reopened_cls") != cp["cls"] and not (cp["cls"] == "CommentsData" and renamed):
             fails.append({"key": "copy-not-stored", "what": f"after re-open the copy resolves to {obs.get('copy_reopened_cls')}, live class {cp['cls']}"})
     # the source file
     if obs.get("digest_before") != obs.get("digest_after"):
-        fails.append({"key": "source-file-changed", "what": "per-node digests of the source entities in the file changed"})
+        key = "curve-clear-cache-regenerates-source-cells" if curve_clear else "source-file-changed"
+        fails.append({"key": key, "what": "per-node digests of the source entities in the file changed"})
     if obs.get("src_reopened") is None or _first_diff(src0, _drop_ids(obs["src_reopened"])):
-        fails.append({"key": "source-differs-after-reopen", "what": "source read back from the file differs at " + str(_first_diff(src0, _drop_ids(obs["src_reopened"])) if obs.get("src_reopened") else "missing")})
+        dd = _only_metadata_differs(src0, _drop_ids(obs["src_reopened"])) if obs.get("src_reopened") else {"missing"}
+        key = "curve-clear-cache-regenerates-source-cells" if dd == {"cells"} and curve_clear else "source-differs-after-reopen:" + ",".join(sorted(dd))
+        fails.append({"key": key, "what": "source read back from the file differs at " + str(_first_diff(src0, _drop_ids(obs["src_reopened"])) if obs.get("src_reopened") else "missing")})
     return fails
 
 
